@@ -642,7 +642,7 @@ Proof.
       rewrite (os_tracked _ _ _ _ _ _ HS Hnd). apply (H o p b Hp); [congruence|congruence|exact Hnd0].
     + discriminate.
     + destruct HC as [->|a out _ -> _ _|_ ->]; cbn in *; apply (H o p b Hp); assumption.
-  - destruct (step_new_op s l o p' Hp Hp') as (k & a & caller & tmo & fn & q & s1 & evs & -> & Hid & Hkq & Ht & Hcq & Hqph & Hqsl & HS & HB & _ & _ & _ & _ & Htrk).
+  - destruct (step_new_op s l o p' Hp Hp') as (k & a & caller & tmo & fn & q & s1 & evs & -> & Hid & Hkq & Ht & Hcq & Hqph & Hqsl & HS & HB & _ & _ & _ & _ & Htrk & _).
     destruct (op_static_fields _ _ (os_static _ _ _ _ _ _ HS)) as (E1 & E2 & _).
     rewrite (os_tracked _ _ _ _ _ _ HS Hnd). apply Htrk; [exact Hdd|congruence|exists b; congruence].
 Qed.
